@@ -30,6 +30,8 @@ struct Case {
     x: Vec<Vec<i64>>,
     y: Vec<i64>,
     e: i32,                           // Gaussian only: features are x * 2^e
+    ecol: Vec<i32>,                   // Gaussian only: column j additionally times 2^ecol[j] (empty = none)
+    backend: String,                  // Gaussian only: "dense" | "ndarray" | "ndarray-f" | "nalgebra"
     a_num: i64,
     a_den: i64,                       // alpha = a_num / a_den
     thr2: Option<i64>,                // Bernoulli: binarize threshold = thr2 / 2
@@ -39,9 +41,61 @@ struct Case {
     tag: String,
 }
 
-fn mat(rows: &[Vec<i64>], scale: f64) -> M {
-    let r: Vec<Vec<f64>> = rows.iter().map(|r| r.iter().map(|&v| v as f64 * scale).collect()).collect();
-    DenseMatrix::from_2d_vec(&r)
+/// rows with column j multiplied by the exact power of two 2^exps[j]
+fn scaled_rows(rows: &[Vec<i64>], exps: &[i32]) -> Vec<Vec<f64>> {
+    rows.iter().map(|r| r.iter().enumerate().map(|(j, &v)| v as f64 * 2f64.powi(exps[j])).collect()).collect()
+}
+
+fn mat(rows: &[Vec<i64>], exps: &[i32]) -> M {
+    DenseMatrix::from_2d_vec(&scaled_rows(rows, exps))
+}
+
+/// (status, classes, class_count, priors, theta, var, predStatus, preds) of a Gaussian fit on any back end
+type GaussOut = (String, Vec<f64>, Vec<usize>, Vec<f64>, Vec<Vec<f64>>, Vec<Vec<f64>>, String, Vec<f64>);
+
+fn gauss_on<MM: smartcore::linalg::Matrix<f64>>(x: &MM, y: &[f64], priors: &Option<Vec<f64>>, q: &MM) -> GaussOut {
+    use smartcore::linalg::BaseVector;
+    let yv = MM::RowVector::from_array(y);
+    let mut par = GaussianNBParameters::default();
+    if let Some(pf) = priors {
+        par = par.with_priors(pf.clone());
+    }
+    match GaussianNB::fit(x, &yv, par) {
+        Err(_) => ("err".into(), vec![], vec![], vec![], vec![], vec![], "none".into(), vec![]),
+        Ok(m) => {
+            let (ps, pv) = match guard(|| m.predict(q)) {
+                Ok(Ok(v)) => ("ok".to_string(), v.to_vec()),
+                Ok(Err(_)) => ("err".to_string(), vec![]),
+                Err(_) => ("panic".to_string(), vec![]),
+            };
+            ("ok".into(), m.classes().clone(), m.class_count().clone(), m.class_priors().clone(),
+             m.theta().clone(), m.var().clone(), ps, pv)
+        }
+    }
+}
+
+fn gauss_backend(backend: &str, xr: &[Vec<f64>], y: &[f64], priors: &Option<Vec<f64>>, qr: &[Vec<f64>]) -> GaussOut {
+    let flat = |r: &[Vec<f64>]| -> Vec<f64> { r.iter().flatten().cloned().collect() };
+    let nd_f = |r: &[Vec<f64>]| -> ndarray::Array2<f64> {
+        // the same logical matrix stored column-major
+        let (nr, nc) = (r.len(), r[0].len());
+        let mut cm = Vec::with_capacity(nr * nc);
+        for j in 0..nc {
+            for row in r.iter() {
+                cm.push(row[j]);
+            }
+        }
+        ndarray::Array2::from_shape_vec((nc, nr), cm).unwrap().reversed_axes()
+    };
+    let p = xr[0].len();
+    match backend {
+        "ndarray" => gauss_on(&ndarray::Array2::from_shape_vec((xr.len(), p), flat(xr)).unwrap(), y, priors,
+                              &ndarray::Array2::from_shape_vec((qr.len(), p), flat(qr)).unwrap()),
+        "ndarray-f" => gauss_on(&nd_f(xr), y, priors, &nd_f(qr)),
+        "nalgebra" => gauss_on(&nalgebra::DMatrix::from_row_slice(xr.len(), p, &flat(xr)), y, priors,
+                               &nalgebra::DMatrix::from_row_slice(qr.len(), p, &flat(qr))),
+        _ => gauss_on(&DenseMatrix::from_2d_vec(&xr.to_vec()), y, priors, &DenseMatrix::from_2d_vec(&qr.to_vec())),
+    }
 }
 
 fn ints(v: &[f64]) -> (Vec<i64>, bool) {
@@ -98,11 +152,14 @@ fn fit_event(run: i64, c: &Case) -> Value {
     };
     let alpha = c.a_num as f64 / c.a_den as f64;
     let priors_f: Option<Vec<f64>> = c.priors.as_ref().map(|(nu, de)| nu.iter().map(|&k| k as f64 / *de as f64).collect());
-    let sc = 2f64.powi(c.e);
-    let x = mat(&c.x, sc);
+    let pz = c.x[0].len();
+    let ecol: Vec<i32> = if c.ecol.len() == pz { c.ecol.clone() } else { vec![0; pz] };
+    let exps: Vec<i32> = ecol.iter().map(|&v| v + c.e).collect();
+    let x = mat(&c.x, &exps);
     let y: Vec<f64> = c.y.iter().map(|&v| v as f64).collect();
-    let q = mat(&c.queries, sc);
+    let q = mat(&c.queries, &exps);
     let mut ev = json!({"run": run, "ev": "NBFit", "variant": c.variant, "tag": c.tag, "X": c.x, "y": c.y, "e": c.e,
+        "ecol": ecol, "backend": c.backend,
         "aNum": c.a_num, "aDen": c.a_den,
         "hasThr": c.thr2.is_some(), "thr2": c.thr2.unwrap_or(0),
         "hasPriors": c.priors.is_some(),
@@ -122,22 +179,19 @@ fn fit_event(run: i64, c: &Case) -> Value {
         };
         match c.variant.as_str() {
             "gaussian" => {
-                let mut par = GaussianNBParameters::default();
-                if let Some(pf) = &priors_f {
-                    par = par.with_priors(pf.clone());
-                }
-                match GaussianNB::fit(&x, &y, par) {
-                    Err(_) => ("err".into(), json!({}), "none".into(), vec![]),
-                    Ok(m) => {
-                        let (cl, cli) = ints(m.classes());
-                        let un1 = 2f64.powi(-c.e);
-                        let un2 = 4f64.powi(-c.e);
-                        let out = json!({"classes": cl, "classesInt": cli, "classCount": m.class_count(),
-                            "priors": qpr.v(m.class_priors()),
-                            "theta": qm(&qg, m.theta(), &|v| v * un1), "var": qm(&qg, m.var(), &|v| v * un2)});
-                        let (ps, pv) = pred_of(guard(|| m.predict(&q)));
-                        ("ok".into(), out, ps, pv)
-                    }
+                let (st, cls, cc, pri, th, va, ps, pv) =
+                    gauss_backend(&c.backend, &scaled_rows(&c.x, &exps), &y, &priors_f, &scaled_rows(&c.queries, &exps));
+                if st != "ok" {
+                    (st, json!({}), "none".into(), vec![])
+                } else {
+                    let (cl, cli) = ints(&cls);
+                    // undo the exact per-column scaling: theta_j / 2^exp_j, var_j / 4^exp_j
+                    let unq = |rows: &[Vec<f64>], pw: i32| -> Vec<Vec<i64>> {
+                        rows.iter().map(|r| r.iter().enumerate().map(|(j, &v)| qg.x(v * 2f64.powi(-pw * exps[j.min(exps.len() - 1)]))).collect()).collect()
+                    };
+                    let out = json!({"classes": cl, "classesInt": cli, "classCount": cc,
+                        "priors": qpr.v(&pri), "theta": unq(&th, 1), "var": unq(&va, 2)});
+                    ("ok".into(), out, ps, pv)
                 }
             }
             "multinomial" => {
@@ -275,6 +329,8 @@ fn small_case(variant: &str, x: &[Vec<i64>], y: &[i64], alpha: (i64, i64), thr2:
         x: x.to_vec(),
         y: y.to_vec(),
         e: 0,
+        ecol: vec![],
+        backend: "dense".into(),
         a_num: alpha.0,
         a_den: alpha.1,
         thr2: if variant == "bernoulli" { Some(thr2) } else { None },
@@ -448,11 +504,30 @@ fn gen_random(out: &mut Out, r: &mut StdRng, th: bool) -> i64 {
                 y.iter().map(|&l| (0..p).map(|j| (r.gen_range(0..kj[j]) + l) % kj[j]).collect()).collect()
             }
         };
-        let priors = if !cat && r.gen_bool(0.3) { Some(random_priors(r, k)) } else { None };
+        let mut priors = if !cat && r.gen_bool(0.3) { Some(random_priors(r, k)) } else { None };
+        if let Some((nu, _)) = priors.as_mut() {
+            // a quarter of the user priors contain an exact zero (its mass moved to another class)
+            if k >= 2 && r.gen_bool(0.25) {
+                let i = r.gen_range(0..k);
+                let j = (i + 1 + r.gen_range(0..k - 1)) % k;
+                nu[j] += nu[i];
+                nu[i] = 0;
+            }
+        }
         let nq = if n > 40 { 4 } else { 8 };
         let queries = queries_for(r, &x, nq);
         run += 1;
-        let c = Case { variant: variant.into(), x, y, e, a_num: alpha.0, a_den: alpha.1, thr2, priors, queries,
+        // Gaussian: features on wildly different scales (per-column exact rescaling 2^-40 / 1 / 2^40)
+        let ecol: Vec<i32> = if variant == "gaussian" && p >= 2 && r.gen_bool(0.35) {
+            let mut v: Vec<i32> = (0..p).map(|_| [-40, 0, 40][r.gen_range(0..3)]).collect();
+            v[0] = 40;
+            v[p - 1] = -40;
+            v
+        } else {
+            vec![]
+        };
+        let backend = if variant == "gaussian" && it % 16 >= 12 { ["ndarray", "ndarray-f", "nalgebra"][(it / 16) % 3] } else { "dense" };
+        let c = Case { variant: variant.into(), x, y, e, ecol, backend: backend.into(), a_num: alpha.0, a_den: alpha.1, thr2, priors, queries,
                        model_preds: None, tag: "random".into() };
         out.emit(fit_event(run, &c));
     }
@@ -492,8 +567,71 @@ fn gen_gauss_shift(out: &mut Out, r: &mut StdRng, th: bool) -> i64 {
         let queries = queries_for(r, &x, 10);
         let e = if r.gen_bool(0.6) { 0 } else { r.gen_range(-3..=3) };
         run += 1;
-        let c = Case { variant: "gaussian".into(), x, y, e, a_num: 1, a_den: 1, thr2: None, priors: None, queries,
+        let ecol: Vec<i32> = if p >= 2 && r.gen_bool(0.35) {
+            let mut v: Vec<i32> = (0..p).map(|_| [-40, 0, 40][r.gen_range(0..3)]).collect();
+            v[0] = 40;
+            v[p - 1] = -40;
+            v
+        } else {
+            vec![]
+        };
+        let backend = ["dense", "dense", "dense", "ndarray", "dense", "ndarray-f", "dense", "nalgebra"][(run as usize) % 8];
+        let c = Case { variant: "gaussian".into(), x, y, e, ecol, backend: backend.into(), a_num: 1, a_den: 1, thr2: None, priors: None, queries,
                        model_preds: None, tag: "gauss-shift".into() };
+        out.emit(fit_event(run, &c));
+    }
+    run
+}
+
+/// Well separated Gaussian clusters (translated copies of one base sample, hundreds of
+/// standard deviations apart) with user priors that contain exact zeros and are equal on
+/// the other classes; queries from every cluster, in particular from the zero-prior ones.
+/// A class of prior 0 has score -infinity and must never be predicted.
+fn gen_gauss_zero_prior(out: &mut Out, r: &mut StdRng, th: bool) -> i64 {
+    let mut run = 0;
+    let cnt = if th { 1500 } else { 160 };
+    for _ in 0..cnt {
+        let k = r.gen_range(2..=4usize);
+        let nb = r.gen_range(3..=5usize);
+        let p = r.gen_range(1..=3usize);
+        let spread: Vec<i64> = (0..p).map(|_| [1i64, 2, 4, 6][r.gen_range(0..4)]).collect();
+        let mut base: Vec<Vec<i64>> = (0..nb).map(|_| (0..p).map(|j| r.gen_range(0..=spread[j])).collect()).collect();
+        for j in 0..p {
+            if base.iter().all(|b| b[j] == base[0][j]) {
+                base[0][j] += 1;
+            }
+        }
+        let labels = random_labels(r, k, false);
+        let step = r.gen_range(150..=200i64);
+        let mut order: Vec<usize> = (0..k).collect();
+        order.shuffle(r);
+        let shifts: Vec<Vec<i64>> = (0..k).map(|c| (0..p).map(|_| order[c] as i64 * step + r.gen_range(0..=3)).collect()).collect();
+        let mut rows: Vec<(Vec<i64>, i64)> = Vec::new();
+        for c in 0..k {
+            for b in base.iter() {
+                rows.push(((0..p).map(|j| b[j] + shifts[c][j]).collect(), labels[c]));
+            }
+        }
+        rows.shuffle(r);
+        let x: Vec<Vec<i64>> = rows.iter().map(|t| t.0.clone()).collect();
+        let y: Vec<i64> = rows.iter().map(|t| t.1).collect();
+        // priors in the order of the sorted labels (the order the model lists its classes)
+        let mut sorted = labels.clone();
+        sorted.sort();
+        let nzero = r.gen_range(1..k);
+        let mut zero_idx: Vec<usize> = (0..k).collect();
+        zero_idx.shuffle(r);
+        let zero_idx = &zero_idx[..nzero];
+        let w = r.gen_range(1..=3i64);
+        let nu: Vec<i64> = (0..k).map(|i| if zero_idx.contains(&i) { 0 } else { w }).collect();
+        let den: i64 = nu.iter().sum();
+        // one training row of every cluster, then mixed rows
+        let mut queries: Vec<Vec<i64>> = sorted.iter().map(|l| rows.iter().find(|t| t.1 == *l).unwrap().0.clone()).collect();
+        queries.extend(queries_for(r, &x, 4));
+        let e = if r.gen_bool(0.7) { 0 } else { r.gen_range(-3..=3) };
+        run += 1;
+        let c = Case { variant: "gaussian".into(), x, y, e, ecol: vec![], backend: "dense".into(), a_num: 1, a_den: 1, thr2: None,
+                       priors: Some((nu, den)), queries, model_preds: None, tag: "gauss-zero-prior".into() };
         out.emit(fit_event(run, &c));
     }
     run
@@ -512,6 +650,8 @@ fn case_of(l: &Value, from_model: bool) -> Case {
         x: imat(&l["X"]),
         y: ivec(&l["y"]),
         e: l["e"].as_i64().unwrap_or(0) as i32,
+        ecol: l["ecol"].as_array().map(|a| a.iter().map(|v| v.as_i64().unwrap_or(0) as i32).collect()).unwrap_or_default(),
+        backend: l["backend"].as_str().unwrap_or("dense").to_string(),
         a_num: l["aNum"].as_i64().unwrap(),
         a_den: l["aDen"].as_i64().unwrap(),
         thr2: if l["hasThr"].as_bool().unwrap_or(false) { Some(l["thr2"].as_i64().unwrap()) } else { None },
@@ -535,6 +675,7 @@ fn main() {
         "gen-small" => gen_small(&mut out, &mut r, th),
         "gen-random" => gen_random(&mut out, &mut r, th),
         "gen-gauss-shift" => gen_gauss_shift(&mut out, &mut r, th),
+        "gen-gauss-zero-prior" => gen_gauss_zero_prior(&mut out, &mut r, th),
         // spec -> impl: inputs enumerated by TLC from NaiveBayesMC with the model's predictions
         "replay-spec" | "rerun" => {
             let mut run = 0;
